@@ -60,22 +60,22 @@ func nest(toks []Tok, i int) ([]op, int) {
 
 // Node is one row of the flat tree table (ids are 1-based pre-order positions).
 type Node struct {
-	Name  string  `json:"name"`
-	Kind  string  `json:"kind"` // struct array leaf gap synth
-	Par   int     `json:"par"`
-	Start int64   `json:"start"`
-	Len   int64   `json:"len"`
-	Root  bool    `json:"root"`
-	Err   bool    `json:"err"`
-	Kids  []int   `json:"kids"`
-	Idx   int     `json:"idx"`
-	Blen  int64   `json:"blen"`   // bit length of the buffer a root owns (0 otherwise)
-	Fill  bool    `json:"fill"`   // root produced by a format decode (gap filling applies)
-	Bits  []int   `json:"bits"`   // actual bits of a raw leaf / gap value (only when requested and small)
-	HasB  bool    `json:"hasb"`
-	Plink bool    `json:"plink"` // the real Parent pointer is the node it is a child of
-	Fmt   bool    `json:"fmt"`   // Format != nil (a format root in the sense of format_root)
-	Raw   bool    `json:"raw"`   // a raw-bits scalar (scalar.BitBuf) without symbolic value
+	Name  string        `json:"name"`
+	Kind  string        `json:"kind"` // struct array leaf gap synth
+	Par   int           `json:"par"`
+	Start int64         `json:"start"`
+	Len   int64         `json:"len"`
+	Root  bool          `json:"root"`
+	Err   bool          `json:"err"`
+	Kids  []int         `json:"kids"`
+	Idx   int           `json:"idx"`
+	Blen  int64         `json:"blen"` // bit length of the buffer a root owns (0 otherwise)
+	Fill  bool          `json:"fill"` // root produced by a format decode (gap filling applies)
+	Bits  []int         `json:"bits"` // actual bits of a raw leaf / gap value (only when requested and small)
+	HasB  bool          `json:"hasb"`
+	Plink bool          `json:"plink"` // the real Parent pointer is the node it is a child of
+	Fmt   bool          `json:"fmt"`   // Format != nil (a format root in the sense of format_root)
+	Raw   bool          `json:"raw"`   // a raw-bits scalar (scalar.BitBuf) without symbolic value
 	V     *decode.Value `json:"-"`
 }
 
@@ -218,7 +218,7 @@ func Flatten(root *decode.Value, withBits bool, maxBits int64) []Node {
 	walk = func(v *decode.Value, par int) int {
 		id := len(nodes) + 1
 		n := Node{Name: v.Name, Kind: kindOf(v), Par: par, Start: v.Range.Start, Len: v.Range.Len,
-			Root: v.IsRoot, Err: v.Err != nil, Idx: v.Index, Kids: []int{}, Bits: []int{}, V: v}
+			Root: v.IsRoot, Err: v.Err != nil, Idx: int(v.Index), Kids: []int{}, Bits: []int{}, V: v}
 		n.Plink = par == 0 || v.Parent == nodes[par-1].V
 		n.Fmt = v.Format != nil
 		if bb, ok := v.V.(*scalar.BitBuf); ok && bb.Sym == nil {
